@@ -21,6 +21,12 @@
 //	  scen=silent side=c|s call=hs|read    a Handshake / first Read parked on a peer that never answers, then Close
 //	  scen=switch trials=<t> n=<w>         t first uses of a pa connection by 1 Read + w Writes + a ProtectedConn poller
 //	  scen=hsclose hs=<n> closeafter=<k>   Close on the client after k yields, racing with the first handshake
+//	  scen=pafirst call=read|write how=close|d|r|w k=<n> pend=<-|[PRW]+>
+//	                    the adapter's public object (pa.ProtocolSwitchServerConn from Accept): its FIRST call is
+//	                    parked — the client has sent only the first k bytes of its first record (k < 5: inside the
+//	                    header peek; k >= 5: inside the selected stack) —, further calls (P ProtectedConn, R Read,
+//	                    W Write, L LocalAddr + RemoteAddr) are queued behind it, then Close / SetDeadline / SetReadDeadline / SetWriteDeadline
+//	                    is called from another goroutine
 //
 // Payload bytes are a fixed function of (writer, call, index) that the Lean oracle recomputes;
 // the peer's stream is reported in hex and judged by the verified checker.
@@ -76,7 +82,9 @@ type spec struct {
 	trials, n           int    // switch
 	park, slow          int    // whole
 	bad                 int    // dgram: WriteTo calls to a foreign address per writer (refused), before the real ones
-	how                 string // stall
+	how                 string // stall, pafirst
+	k                   int    // pafirst: bytes of the client's first record that have arrived
+	pend                string // pafirst: calls queued behind the parked one
 }
 
 func groups(s string) [][]int {
@@ -142,8 +150,16 @@ func (s spec) String() string {
 		b += fmt.Sprintf(" cw=%s park=%d slow=%d", showGroups(s.cw), s.park, s.slow)
 	case "stall":
 		b += fmt.Sprintf(" side=%s call=%s how=%s", s.side, s.call, s.how)
+	case "wake":
+		b += fmt.Sprintf(" side=%s how=%s k=%d park=%d", s.side, s.how, s.k, s.park)
 	case "switch":
 		b += fmt.Sprintf(" trials=%d n=%d", s.trials, s.n)
+	case "pafirst":
+		pend := s.pend
+		if pend == "" {
+			pend = "-"
+		}
+		b += fmt.Sprintf(" call=%s how=%s k=%d pend=%s", s.call, s.how, s.k, pend)
 	case "read":
 		b += fmt.Sprintf(" slen=%d rbufs=%s", s.slen, showInts(s.rbufs))
 	case "dgram":
@@ -181,6 +197,10 @@ func parse(desc string) spec {
 	s.slow = hx.KVInt(desc, "slow")
 	s.how, _ = hx.KV(desc, "how")
 	s.bad = hx.KVInt(desc, "bad")
+	s.k = hx.KVInt(desc, "k")
+	if v, ok := hx.KV(desc, "pend"); ok && v != "-" {
+		s.pend = v
+	}
 	if s.trials < 1 {
 		s.trials = 1
 	}
@@ -1341,6 +1361,233 @@ func scenSilent(sp spec, y *yielder, o *obs) {
 	}
 }
 
+// ---------------------------------------------------------------------------- the adapter's public object
+
+// parkConn is the server's transport end as the adapter sees it; it knows when a goroutine is
+// inside a transport Read with nothing left to read (= parked until the peer sends, a read
+// deadline passes or the transport is closed).
+type parkConn struct {
+	*pair.StreamEnd
+	mu  sync.Mutex
+	in  int // Reads inside the transport
+	got int // bytes handed out so far
+}
+
+func (c *parkConn) Read(b []byte) (int, error) {
+	c.mu.Lock()
+	c.in++
+	c.mu.Unlock()
+	n, err := c.StreamEnd.Read(b)
+	c.mu.Lock()
+	c.in--
+	c.got += n
+	c.mu.Unlock()
+	return n, err
+}
+
+// waitParked: a Read is inside the transport and all k bytes that were sent have been taken.
+func (c *parkConn) waitParked(k int, d time.Duration) bool {
+	end := time.Now().Add(d)
+	for {
+		c.mu.Lock()
+		ok := c.in > 0 && c.got >= k
+		c.mu.Unlock()
+		if ok {
+			return true
+		}
+		if time.Now().After(end) {
+			return false
+		}
+		time.Sleep(50 * time.Microsecond)
+	}
+}
+
+var (
+	helloOnce sync.Once
+	helloRec  []byte
+)
+
+// firstRecord is what a real tlcp client sends first (its ClientHello record), captured once.
+func firstRecord() []byte {
+	helloOnce.Do(func() {
+		ce, se := pair.StreamPipe()
+		got := make(chan []byte, 1)
+		ce.OnWrite = func(d []byte) [][]byte {
+			select {
+			case got <- append([]byte(nil), d...):
+			default:
+			}
+			return nil
+		}
+		c := tlcp.Client(ce, pair.TClient())
+		go func() { _ = c.Handshake() }()
+		select {
+		case helloRec = <-got:
+		case <-time.After(5 * time.Second):
+		}
+		ce.Close()
+		se.Close()
+	})
+	return helloRec
+}
+
+// how long Close / a deadline setter of the adapter's object may take (they do no I/O of their own
+// while the protocol is undetected or the handshake unfinished)
+const paWatch = 3 * time.Second
+
+// scenPaFirst: the object handed out by the adaptive listener's Accept, used like any net.Conn.
+// Its first Read (or Write) is parked: the client has connected and sent k bytes of its first
+// record, then stays silent. Other calls on the object are queued behind it. Then, from another
+// goroutine, the net.Conn way of getting them back: Close, or a deadline setter with a time that
+// has passed. That call must return, and every pending call must come back — with an error, none
+// can have succeeded. how=w (write deadline, the parked call waits in a read) must return just
+// the same; the calls are then released with SetReadDeadline.
+func scenPaFirst(sp spec, y *yielder, o *obs) {
+	hello := firstRecord()
+	if len(hello) < 6 {
+		o.add("setup", "no-client-hello")
+		return
+	}
+	k := sp.k
+	if k >= len(hello) {
+		k = len(hello) - 1
+	}
+	ce, se := pair.StreamPipe()
+	pc := &parkConn{StreamEnd: se}
+	inner := &oneShotListener{ch: make(chan net.Conn, 1)}
+	inner.ch <- pc
+	ln := pa.NewListener(inner, pair.TServer(), nil)
+	acc := make(chan net.Conn, 1)
+	go func() {
+		c, err := ln.Accept()
+		if err != nil {
+			c = nil
+		}
+		acc <- c
+	}()
+	var sc net.Conn
+	select {
+	case sc = <-acc:
+	case <-time.After(paWatch):
+		// Accept itself waits for the silent client
+		o.dead = true
+		o.add("setup", "accept-hung")
+		se.Close()
+		ce.Close()
+		return
+	}
+	if sc == nil {
+		o.add("setup", "accept-failed")
+		return
+	}
+	psc, _ := sc.(*pa.ProtocolSwitchServerConn)
+	ce.Inject(hello[:k])
+	use := func(kind byte, w int) string {
+		switch kind {
+		case 'P':
+			if psc == nil {
+				return "na"
+			}
+			_ = psc.ProtectedConn()
+			return "ok"
+		case 'L':
+			_, _ = sc.LocalAddr(), sc.RemoteAddr()
+			return "ok"
+		case 'W':
+			_, err := sc.Write(Payload(w, 0, 100))
+			return errTok(err)
+		default:
+			_, err := sc.Read(make([]byte, 64))
+			return errTok(err)
+		}
+	}
+	var g, pg, sg group
+	callRes, setRes := "-", "-"
+	var callDone, setDone atomic.Bool
+	g.goFn(func() {
+		kind := byte('R')
+		if sp.call == "write" {
+			kind = 'W'
+		}
+		callRes = use(kind, 0)
+		callDone.Store(true)
+	})
+	if !pc.waitParked(k, 5*time.Second) {
+		o.add("setup", "first-call-not-parked")
+		se.Close()
+		ce.Close()
+		g.wait(2 * time.Second)
+		return
+	}
+	pend := make([]string, len(sp.pend))
+	pendDone := make([]atomic.Bool, len(sp.pend))
+	for i := range pend {
+		i := i
+		pend[i] = "-"
+		pg.goFn(func() { pend[i] = use(sp.pend[i], 1+i); pendDone[i].Store(true) })
+	}
+	if len(pend) > 0 { // let them reach the mutex (nothing depends on it)
+		for i := 0; i < 20; i++ {
+			runtime.Gosched()
+		}
+		time.Sleep(500 * time.Microsecond)
+	}
+	sg.goFn(func() {
+		y.maybe()
+		switch sp.how {
+		case "w":
+			setRes = errTok(sc.SetWriteDeadline(time.Now()))
+		case "d":
+			setRes = errTok(sc.SetDeadline(time.Now()))
+		case "r":
+			setRes = errTok(sc.SetReadDeadline(time.Now()))
+		default:
+			setRes = errTok(sc.Close())
+		}
+		setDone.Store(true)
+	})
+	okS := sg.wait(paWatch)
+	if okS && sp.how == "w" {
+		sc.SetReadDeadline(time.Now())
+	}
+	okC := okS && g.wait(paWatch) && pg.wait(paWatch)
+	if !okS || !okC {
+		o.dead = true
+		// which calls were still out when the watchdog fired
+		cd, sd := callDone.Load(), setDone.Load()
+		pd := make([]bool, len(pend))
+		for i := range pd {
+			pd[i] = pendDone[i].Load()
+		}
+		se.Close() // the transport itself: releases whatever waits for the client
+		ce.Close()
+		g.wait(2 * time.Second)
+		pg.wait(2 * time.Second)
+		sg.wait(2 * time.Second)
+		if !cd {
+			callRes = "-"
+		}
+		if !sd {
+			setRes = "-"
+		}
+		for i := range pd {
+			if !pd[i] {
+				pend[i] = "-"
+			}
+		}
+	}
+	o.add("call", callRes)
+	o.add("pend", strings.Join(pend, ","))
+	o.add("set", setRes)
+	for _, gr := range []*group{&g, &pg, &sg} {
+		if len(gr.panics) > 0 {
+			o.panic = gr.panics[0]
+		}
+	}
+	se.Close()
+	ce.Close()
+}
+
 // ---------------------------------------------------------------------------- race log
 
 // RaceEnabled is set by race.go when built with -race.
@@ -1444,8 +1691,12 @@ func runCase(desc string, rl *raceLog) string {
 				scenWhole(sp, y, o)
 			case "stall":
 				scenStall(sp, y, o)
+			case "wake":
+				scenWake(sp, y, o)
 			case "switch":
 				scenSwitch(sp, y, o)
+			case "pafirst":
+				scenPaFirst(sp, y, o)
 			default:
 				o.add("setup", "unknown-scenario")
 			}
@@ -1533,6 +1784,31 @@ func gen(o hx.Opts) []string {
 			}
 		}
 	}
+	// a Read parked in the transport with part of a record taken (inside the header; the header and part of
+	// the body in one piece; header and body in two pieces) is woken by a deadline setter from another
+	// goroutine, sets a new deadline and reads on: no byte may be lost (wake.go)
+	for _, side := range []string{"c", "s"} {
+		for i, kp := range [][2]int{{1, 0}, {3, 0}, {4, 2}, {7, 0}, {14, 7}, {60, 5}, {120, 40}, {228, 100}} {
+			add(spec{stack: "tlcp", scen: "wake", procs: 4, seed: 10, side: side, how: []string{"r", "d"}[i%2], k: kp[0], park: kp[1]})
+		}
+	}
+	// the adapter's public object: its first Read / Write parked on a client that sent k bytes of
+	// its first record (nothing; part of the header; the header; the header and part of the body),
+	// then Close or a deadline setter from another goroutine; and the same with further calls of
+	// every method of the object queued behind the parked one
+	for _, call := range []string{"read", "write"} {
+		for _, how := range []string{"close", "d", "r", "w"} {
+			for _, k := range []int{0, 3, 5, 40} {
+				add(spec{stack: "pa", scen: "pafirst", procs: 4, seed: 15, call: call, how: how, k: k})
+			}
+		}
+		for _, how := range []string{"close", "d"} {
+			for i, pend := range []string{"P", "RW", "PWRL"} {
+				add(spec{stack: "pa", scen: "pafirst", procs: []int{4, 2, 8}[i], seed: 16, call: call, how: how, k: []int{0, 2, 0}[i], pend: pend})
+			}
+		}
+		add(spec{stack: "pa", scen: "pafirst", procs: 4, seed: 16, call: call, how: "r", k: 5, pend: "RWPL"})
+	}
 	// payloads of several hundred KiB from concurrent writers over a slow transport: two large
 	// ones, a large one against small ones, three writers, more than one Write per writer
 	add(spec{stack: "tlcp", scen: "whole", procs: 4, seed: 11, cw: [][]int{{300000}, {300000}}, park: 5, slow: 50})
@@ -1566,6 +1842,7 @@ func gen(o hx.Opts) []string {
 	}
 	rounds *= o.Scale
 	procs := []int{1, 2, 4, 8, 16}
+	rp := hx.NewRand(o.Seed ^ 0x5afe13)
 	for i := 0; i < rounds; i++ {
 		for _, st := range []string{"tlcp", "dtlcp"} {
 			nw := 2 + r.Intn(5)
@@ -1636,6 +1913,15 @@ func gen(o hx.Opts) []string {
 			add(spec{stack: hx.Pick(r, []string{"tlcp", "dtlcp"}), scen: "stall", procs: hx.Pick(r, procs), seed: r.U64() % 1000000,
 				yield: hx.Pick(r, []int{0, 40}), side: hx.Pick(r, []string{"c", "s"}), call: hx.Pick(r, []string{"write", "read"}),
 				how: hx.Pick(r, []string{"w", "d", "r", "close"})})
+		}
+		for j := 0; j < 4; j++ { // own generator: the layouts above stay what they were
+			pend := ""
+			for n := rp.Intn(4); n > 0; n-- {
+				pend += hx.Pick(rp, []string{"P", "R", "W", "L"})
+			}
+			add(spec{stack: "pa", scen: "pafirst", procs: hx.Pick(rp, procs), seed: rp.U64() % 1000000, yield: hx.Pick(rp, []int{0, 40}),
+				call: hx.Pick(rp, []string{"read", "write"}), how: hx.Pick(rp, []string{"close", "d", "r", "w"}),
+				k: hx.Pick(rp, []int{0, 0, 1, 2, 3, 4, 5, 6, 20, 45}), pend: pend})
 		}
 		if i%2 == 0 {
 			add(spec{stack: "pa", scen: "switch", procs: hx.Pick(r, procs), seed: r.U64() % 1000000, yield: hx.Pick(r, []int{0, 40, 80}), trials: 20, n: 1 + r.Intn(5)})
